@@ -194,7 +194,7 @@ func ledgerIDs(w *world.World) (ids []uint32, f *vrun.Result) {
 
 func TestC06Wire(t *testing.T) {
 	e := vrun.LoadEnv()
-	meta := vrun.Meta{Property: "C06", Workload: "TestC06Wire", Total: e.Pick(300, 5000),
+	meta := vrun.Meta{Property: "C06", Workload: "TestC06Wire", Total: e.Pick(300, 30000),
 		Rule:        "wire.Connect over memnet; 2-64 concurrent callers x 1-6 requests of the 7 request kinds (upstream open/resume/close, metadata, downstream open/resume/close) plus keepalive pings every 1 ms / 5 ms / 1 s; the broker answers in batches of 1-8 in fifo/reverse/random order, mixes in spurious responses (unknown even id, odd id, duplicate of an already answered response) and echoes a tag derived from the request BODY in the response; callers are cancelled at random points in 0/10/30% of the requests. Oracle: response id == request id, echoed tag == the caller's own tag, no caller (cancelled ones aside) fails, all request ids on the connection distinct and even (connect request and pings included). non-trivial = >=8 requests answered with >=2 outstanding at once (batch >= 2); distinct = scenario tuple",
 		Assumptions: []string{"spurious responses keep the message type of a response the library could legitimately receive for that id; type confusion between response kinds is C12's subject"}}
 	vrun.Loop(t, meta, 0, func(c *vrun.Case) vrun.Result {
@@ -381,7 +381,7 @@ func runWire(c *vrun.Case, s scenario) vrun.Result {
 // gets the stream the broker derived from ITS session id.
 func TestC06Iscp(t *testing.T) {
 	e := vrun.LoadEnv()
-	meta := vrun.Meta{Property: "C06", Workload: "TestC06Iscp", Total: e.Pick(150, 2500),
+	meta := vrun.Meta{Property: "C06", Workload: "TestC06Iscp", Total: e.Pick(150, 15000),
 		Rule: "iscp.Connect over memnet; 2-32 concurrent callers of OpenUpstream(session)/SendMetadata/Upstream.Close with responses permuted in batches and spurious responses mixed in; oracle: OpenUpstream(session) returns the stream whose id the broker derived from that session id, metadata calls succeed, all request ids distinct and even; non-trivial = >=6 opens with batch >= 2; distinct = scenario tuple",
 	}
 	vrun.Loop(t, meta, 0, func(c *vrun.Case) vrun.Result {
